@@ -228,9 +228,31 @@ def values(draw, depth, complex_ok=True, objs=True, rng_in_containers=True, in_c
     n = draw(st.integers(0, 4))
     sub = values(depth - 1, complex_ok, objs, rng_in_containers, in_container=True)
     if cat == "seq":
-        return {"t": draw(st.sampled_from(["list", "tuple"])), "items": [draw(sub) for _ in range(n)]}
+        return {"t": draw(st.sampled_from(["list", "tuple"])), "items": fix_numeric_seq([draw(sub) for _ in range(n)])}
     keys = draw(st.lists(dict_keys(), min_size=n, max_size=n, unique=True))
     return {"t": "dict", "items": [[k, draw(sub)] for k in keys]}
+
+
+def fix_numeric_seq(items):
+    """A sequence whose elements all happen to be numbers takes the serializer's ndarray fast path; the
+    property only covers integers within int64 there (and by-value comparison needs ints <= 2^53 as soon
+    as anything but plain Python ints is present).  Clamp by construction instead of rejecting."""
+
+    def is_num(s):
+        return s["t"] in ("bool", "int", "float") or (s["t"] == "npscalar" and not s["dtype"].startswith("complex"))
+
+    if not items or not all(is_num(s) for s in items):
+        return items
+    only_py_ints = all(s["t"] in ("int",) for s in items)
+    bound = 2**63 - 1 if only_py_ints else 2**53
+    out = []
+    for s in items:
+        if s["t"] == "int" or (s["t"] == "npscalar" and s["dtype"].startswith(("int", "uint"))):
+            v = s["v"]
+            if not -bound <= v <= bound:
+                s = dict(s, v=max(-bound, min(bound, v)) if s["t"] == "int" or not s["dtype"].startswith("uint") else min(bound, v))
+        out.append(s)
+    return out
 
 
 def attr_names():
